@@ -645,3 +645,122 @@ def gen_and_run(odfdo, seed, kind, nsteps, kinds=OPS_CORE, maxw=8, maxh=8):
             try: d.read(q)
             except Exception: pass
     return case, None
+
+
+# ------------------------------------------------------------------ direct Python reference (search phase ONLY)
+# A list-of-lists re-statement of Grid.v.  It is never used as evidence: only to look for a concrete failing input
+# when a proof or the Coq evaluation itself is broken (BUILDERS.md, decision step 5).
+
+def _norm(v, n):
+    return (0 if n == 0 else v % n) if v < 0 else v
+
+
+def _lset(l, x, rep, c):
+    l = l + [(0, 0)] * max(0, x - len(l))
+    return l[:x] + [c] * rep + l[x + rep:]
+
+
+def _lins(l, x, rep, c):
+    l2 = l + [(0, 0)] * max(0, x - len(l))
+    return l2[:x] + [c] * rep + l[x:]
+
+
+class PyGrid:
+    def __init__(self, nodes):
+        self.ncols = sum(rep_val(n[1]) for n in nodes if n[0] == 'col')
+        self.rows = []
+        for n in nodes:
+            if n[0] == 'row':
+                r = [(v, s) for f, rep, v, s in n[3] for _ in range(rep_val(rep))]
+                self.rows += [list(r) for _ in range(rep_val(n[1]))]
+
+    def key(self):
+        return (self.ncols, tuple(tuple(r) for r in self.rows))
+
+    def _declare(self, w):
+        n0 = max(1, w) if self.ncols == 0 else self.ncols
+        self.ncols = max(n0, w)
+
+    def _set_row(self, y, rep, r):
+        h = len(self.rows)
+        rows = self.rows + [[] for _ in range(max(0, y - h))]
+        self.rows = rows[:y] + [list(r) for _ in range(rep)] + self.rows[y + rep:]
+        if y < h: self.ncols = max(self.ncols, len(r))
+        else: self._declare(len(r))
+
+    def apply(self, a):
+        k = a[0]; H = len(self.rows); W = self.ncols
+        cells = lambda cs: [(v, s) for rep, v, s in cs for _ in range(rep)]
+        if k == 'append_row':
+            self.rows += [cells(a[2][1]) for _ in range(a[1])]; self._declare(len(cells(a[2][1])))
+        elif k == 'set_row': self._set_row(_norm(a[1], H), a[2], cells(a[3][1]))
+        elif k == 'insert_row':
+            y = _norm(a[1], H); r = cells(a[3][1])
+            rows = self.rows + [[] for _ in range(max(0, y - H))]
+            self.rows = rows[:y] + [list(r) for _ in range(a[2])] + self.rows[y:]
+            if y < H: self.ncols = max(W, len(r))
+            else: self._declare(len(r))
+        elif k == 'delete_row':
+            y = _norm(a[1], H)
+            if y < H: del self.rows[y]
+        elif k in ('set_cell', 'insert_cell', 'append_cell', 'delete_cell'):
+            if k == 'append_cell': y = _norm(a[1], H); c = a[2]
+            elif k == 'delete_cell': x = _norm(a[1], W); y = _norm(a[2], H)
+            else: x = _norm(a[1], W); y = _norm(a[2], H); c = a[3]
+            row = list(self.rows[y]) if y < H else []
+            if k == 'set_cell': row = _lset(row, x, c[0], (c[1], c[2]))
+            elif k == 'insert_cell': row = _lins(row, x, c[0], (c[1], c[2]))
+            elif k == 'append_cell': row = row + [(c[1], c[2])] * c[0]
+            else:
+                if y >= H: return
+                row = row[:x] + row[x + 1:]
+            self._set_row(y, 1, row)
+        elif k == 'insert_column':
+            x = _norm(a[1], W)
+            self.rows = [(_lins(r, x, a[2], (0, 0)) if x < len(r) else r) for r in self.rows]
+            self.ncols = max(W, x) + a[2]
+        elif k == 'delete_column':
+            x = _norm(a[1], W)
+            if x < W:
+                self.rows = [(r[:x] + r[x + 1:] if x < len(r) else r) for r in self.rows]; self.ncols = W - 1
+        elif k == 'append_column': self.ncols = W + max(1, a[1])
+        elif k == 'set_column': self.ncols = max(W, _norm(a[1], W) + max(1, a[2]))
+        elif k == 'set_lines':
+            clone, x, y = a[1], _norm(a[2], W), _norm(a[3], H)
+            for line in a[4]:
+                if line:
+                    row = list(self.rows[y]) if y < len(self.rows) else []
+                    if x == 0 and not clone and len(row) <= len(line): row = cells(line)
+                    else:
+                        xx = x
+                        for rep, v, s in line:
+                            row = _lset(row, xx, rep, (v, s)); xx += rep
+                    self._set_row(y, 1, row)
+                y += 1
+        elif k == 'extend_rows':
+            for rep, r in a[1]:
+                self.rows += [cells(r[1]) for _ in range(rep)]
+            w = max([len(r) for r in self.rows] + [0])
+            if a[1]: self.ncols = max(1, w) if W == 0 else max(W, w)
+            else: self.ncols = max(W, w)
+        elif k == 'clear':
+            self.ncols = 0; self.rows = []
+
+
+def python_oracle(res):
+    """first step of an executed case whose post state is not the reference's; None if all agree"""
+    pre = res.get('init')
+    if pre is None:
+        return None
+    for i, r in enumerate(res['records']):
+        if r['raised']:
+            return i
+        g = PyGrid(pre)
+        try:
+            g.apply(r['abstract_op'])
+        except Exception:
+            return None
+        if g.key() != PyGrid(r['post']).key():
+            return i
+        pre = r['post']
+    return None
